@@ -257,12 +257,60 @@ Proof.
   cbn [map check_fors]. rewrite (check_for_model cfg st m q HI Hcap). apply IH; assumption.
 Qed.
 
+(* Addrs(0) is covered by the per-local answers *)
+Lemma laddr_eqb_eq : forall a b, laddr_eqb a b = true -> a = b.
+Proof.
+  intros [[x|] r1] [[y|] r2]; unfold laddr_eqb; cbn [fst snd]; intros H;
+    apply andb_prop in H; destruct H as [H1 H2]; try discriminate;
+    apply Z.eqb_eq in H2; subst; [apply Z.eqb_eq in H1; subst|]; reflexivity.
+Qed.
+
+Lemma answer_for_model : forall (f : laddr -> list Z) qs la,
+  existsb (laddr_eqb la) qs = true -> answer_for qs (map f qs) la = f la.
+Proof.
+  intros f qs la. unfold answer_for. induction qs as [|q r IH]; cbn [existsb map combine find fst]; [discriminate|].
+  destruct (laddr_eqb q la) eqn:E1.
+  - intros _. apply laddr_eqb_eq in E1. subst. reflexivity.
+  - destruct (laddr_eqb la q) eqn:E2.
+    + apply laddr_eqb_eq in E2. subst.
+      assert (laddr_eqb q q = true).
+      { destruct q as [[x|] r0]; unfold laddr_eqb; cbn [fst snd]; rewrite ?Z.eqb_refl; reflexivity. }
+      congruence.
+    + cbn [orb]. exact IH.
+Qed.
+
+Lemma pair_eqb_refl : forall y, pair_eqb y y = true.
+Proof. intros [a b]. unfold pair_eqb. cbn [fst snd]. rewrite !Z.eqb_refl. reflexivity. Qed.
+
+Lemma sub_ms_refl : forall l, sub_ms l l = true.
+Proof.
+  induction l as [|y r IH]; [reflexivity|]. cbn [sub_ms remove_one]. rewrite pair_eqb_refl. exact IH.
+Qed.
+
+Lemma check_cover_model : forall cfg st,
+  check_cover cfg (map (addrs_for cfg st) (queries cfg)) (addrs_all cfg st) = true.
+Proof.
+  intros cfg st. unfold check_cover.
+  destruct (forallb (fun la => existsb (laddr_eqb la) (queries cfg)) (dedup_laddr [] (listen cfg))) eqn:E;
+    [|reflexivity].
+  rewrite forallb_forall in E.
+  replace (flat_map (fun la : laddr => map (fun x => (x, snd la))
+                       (answer_for (queries cfg) (map (addrs_for cfg st) (queries cfg)) la))
+                    (dedup_laddr [] (listen cfg)))
+    with (addrs_all cfg st); [apply sub_ms_refl|].
+  unfold addrs_all. revert E. generalize (dedup_laddr [] (listen cfg)). intros L E.
+  induction L as [|la r IH]; [reflexivity|]. cbn [flat_map].
+  rewrite (answer_for_model (addrs_for cfg st) (queries cfg) la (E la (or_introl eq_refl))).
+  f_equal. apply IH. intros x Hx. apply E. right. exact Hx.
+Qed.
+
 Lemma mon_check_model : forall cfg st m f, Inv cfg st m -> (cap cfg <= 3)%nat ->
   mon_check cfg m (observe cfg st f) = [].
 Proof.
   intros cfg st m f HI Hcap. unfold mon_check, observe. cbn [o_for o_all].
   rewrite (check_fors_model cfg st m (queries cfg) 0 HI Hcap).
-  rewrite (check_all_model cfg st m HI Hcap). reflexivity.
+  rewrite (check_all_model cfg st m HI Hcap).
+  rewrite (check_cover_model cfg st). reflexivity.
 Qed.
 
 (* THE theorem: the monitor run on the implementation's traces accepts every
